@@ -31,7 +31,7 @@ rm -f /tmp/ev_clean.$$ /tmp/ev_suite.$$ /tmp/ev_mut.$$
 (cd $WT && git checkout -q -- . && git clean -fdq && (git apply "$D/patch.diff" || git apply -3 "$D/patch.diff")) || { echo "PATCH DOES NOT APPLY for the checks"; exit 2; }
 for id in "$@"; do
   echo "=== $id"
-  (cd /verif && VERIF_REPO=$WT VERIF_EVIDENCE_DIR=/tmp/ev_evi_$$ ./check "$id" ${TIER:-quick} 2>&1 | grep -E "VIOLATION|KNOWN-FINDING|BROKEN|violation:" | head -${LINES_MAX:-6}; echo "rc=$?")
+  (cd /verif && VERIF_REPO=$WT VERIF_EVIDENCE_DIR=/tmp/ev_evi_$$ ./check "$id" ${TIER:-quick} >/tmp/ev_out.$$ 2>&1; echo "rc=$?"; grep -E "VIOLATION|KNOWN-FINDING|BROKEN|violation:" /tmp/ev_out.$$ | head -${LINES_MAX:-6}; rm -f /tmp/ev_out.$$)
 done
 rm -rf /tmp/ev_evi_$$
 h=$(python3 -c "import hashlib;print(hashlib.sha1('$WT'.encode()).hexdigest()[:10])"); rm -rf /verif/.build_$h
